@@ -143,6 +143,18 @@ def event_hierarchy(repo):
     pinned(find(find(tree.body, "EventManager", ast.ClassDef).body, "handle_event"),
            "def handle_event(self, event):\n    self._event_types[event.__class__.get_name()].handle(event)\n",
            "EventManager.handle_event")
+    # one handler thread consumes the queue and handles one event at a time (what makes a save see whole events)
+    aem = find(tree.body, "AsyncEventManager", ast.ClassDef)
+    he = find(aem.body, "handle_events", ast.FunctionDef)
+    threads = [n for n in ast.walk(tree) if isinstance(n, ast.Call) and ast.unparse(n.func) in ("threading.Thread", "Thread")]
+    if len(threads) != 1 or threads[0] not in list(ast.walk(he)) or ast.unparse(threads[0]) != "threading.Thread(target=self._handler_loop)":
+        terr("events.py: expected exactly one thread, threading.Thread(target=self._handler_loop), started by handle_events", he)
+    hl = find(aem.body, "_handler_loop", ast.FunctionDef)
+    gets = [n for n in ast.walk(hl) if isinstance(n, ast.Assign) and ast.unparse(n) == "event = self._queue.get()"]
+    handles = [n for n in ast.walk(hl) if isinstance(n, ast.Call) and ast.unparse(n.func).endswith("handle_event")]
+    if len(gets) != 1 or len(handles) != 1 or ast.unparse(handles[0]) != "self.handle_event(event)" \
+            or not (len(hl.body) == 1 and isinstance(hl.body[0], ast.While)):
+        terr("AsyncEventManager._handler_loop: expected one loop doing `event = self._queue.get()` ... `self.handle_event(event)`", hl)
     return lambda cls: sorted((KIND[k] for k in KIND if cls in ancestors(k)), key=list(KIND.values()).index)
 
 
